@@ -24,7 +24,7 @@ RULE = (
     "pair; distinct = (operation, parameters, input hash, seed); non-trivial = the operation returned in both runs"
 )
 ASSUMPTIONS = ["thorough tier repeats the CLI steps as real subprocesses under two PYTHONHASHSEED values", "line-granular injection uses sys.monitoring LINE events on code objects whose file lies under the tree under test"]
-REQUIRED = {"pairs_compared": {"quick": 400, "thorough": 8000}, "global_state_checks": {"quick": 400, "thorough": 8000}, "injected_global_draws": {"quick": 2000, "thorough": 50000}, "training_pairs": {"quick": 16, "thorough": 300}, "training_pairs_same_model": {"quick": 16, "thorough": 300}, "training_with_non_default_switches": {"quick": 6, "thorough": 100}, "vi_training_pairs": {"quick": 40, "thorough": 600}, "reused_scorer_pairs": {"quick": 30, "thorough": 600}, "grid_model_training_pairs": {"quick": 2, "thorough": 16}, "cli_pairs": {"quick": 24, "thorough": 400}, "cli_subprocess_pairs": {"quick": 2, "thorough": 16}}
+REQUIRED = {"pairs_compared": {"quick": 400, "thorough": 8000}, "global_state_checks": {"quick": 400, "thorough": 8000}, "injected_global_draws": {"quick": 2000, "thorough": 50000}, "training_pairs": {"quick": 16, "thorough": 300}, "training_pairs_same_model": {"quick": 16, "thorough": 300}, "training_with_non_default_switches": {"quick": 6, "thorough": 100}, "vi_training_pairs": {"quick": 40, "thorough": 600}, "reused_scorer_pairs": {"quick": 30, "thorough": 600}, "second_runs_on_an_object_with_a_past": {"quick": 60, "thorough": 1200}, "grid_model_training_pairs": {"quick": 2, "thorough": 16}, "cli_pairs": {"quick": 24, "thorough": 400}, "cli_subprocess_pairs": {"quick": 2, "thorough": 16}}
 N_OPS = {"quick": 640, "thorough": 12800}
 TOOL = 4
 
@@ -170,18 +170,44 @@ def run_shard(rec, tier, seed, shard, nshards):
             name, params = "SparseCover", p
             gobj = R.SparseCoverPlateGenerator(**p)
             fn = gobj.generate_and_unmask_initial_plate
+            fn2 = R.SparseCoverPlateGenerator(**p).generate_and_unmask_initial_plate
             kind = "generator"
         else:
             screen = Screen(**kw)
+            state0 = rng.bit_generator.state
             kind, name, params, fn = RC.make_operation(rng, R, screen)
+            state1 = rng.bit_generator.state
+            rng.bit_generator.state = state0
+            _k2, _n2, params2, fn2 = RC.make_operation(rng, R, screen)  # a second, identically configured object
+            rng.bit_generator.state = state1
+            if repr(params2) != repr(params):
+                fn2 = fn
         s0 = int(rng.integers(0, 2**31))
         adv = int(rng.integers(0, 20))
 
-        def run(fn=fn, screen=screen, s0=s0, adv=adv):
+        # in the second run of half of the pairs the generator / smoother OBJECT has a past: it has already been
+        # applied to another screen with another generator (a long-lived object in a loop over data sets)
+        past = None
+        if kind != "holdout" and rng.random() < 0.5:
+            try:
+                past = Screen(**RC.retro_screen_kwargs(rng)[0])
+            except Exception:
+                past = None
+
+        def run(fn=fn, fn2=fn2, screen=screen, s0=s0, adv=adv, past=past, st={"n": 0}):
+            st["n"] += 1
+            f = fn
+            if past is not None and st["n"] == 2:
+                f = fn2  # the first run used a fresh object; this one was applied to something else before
+                try:
+                    f(past, np.random.default_rng(s0 + 99))
+                except Exception:
+                    pass
+                rec.count("second_runs_on_an_object_with_a_past")
             g = np.random.default_rng(s0)
             if adv:
                 g.random(adv)
-            return fn(screen, g)
+            return f(screen, g)
 
         fp = (lambda r: [screen_fp(r[0]), screen_fp(r[1])]) if kind == "holdout" else screen_fp
         w = {"op": name, "params": params, "rows": int(screen.size), "generator_seed": s0}
